@@ -290,7 +290,7 @@ func (generator *ConverterGenerator) mappingForOption(context Context, converter
 		argName := fmt.Sprintf("arg%d", i)
 		valueType := assignment.Path.Last().Type
 		valuePath := converter.inputRootPath().Append(assignment.Path)
-		if mapping.RepeatFor != nil && valueType.IsArray() {
+		if mapping.RepeatFor != nil && assignment.Method == ast.AppendAssignment && valueType.IsArray() {
 			valueType = valueType.AsArray().ValueType
 			valuePath = ast.Path{
 				{Identifier: mapping.RepeatAs, Type: valueType, Root: true},
